@@ -26,7 +26,7 @@
  "name": "get_backup_sb_B",
  "props": ["C20"],
  "level": "B(2)",
- "tier": "quick",
+ "tier": "thorough",
  "harness": "h_get_backup_sb_B",
  "includes": ["e2fsck", "lib/support"],
  "unwind": 9,
@@ -49,7 +49,7 @@
  "name": "get_backup_sb_fs",
  "props": ["C20"],
  "level": "B(2)",
- "tier": "wip",
+ "tier": "quick",
  "harness": "h_get_backup_sb_fs",
  "includes": ["e2fsck", "lib/support"],
  "unwind": 9,
@@ -57,7 +57,7 @@
  "cbmc_flags": ["--object-bits", "12"],
  "unwind_reason": "as get_backup_sb_default; the block size is known, the outer loop runs once",
  "functions": ["e2fsck/util.c:get_backup_sb"],
- "assumes": ["as get_backup_sb_default, but the filesystem handle has a superblock (descriptors looked bad): block size known (fs->blocksize or ctx->blocksize, each 1024 << n, n <= 6), s_blocks_per_group arbitrary non-zero; the candidate block is compared with a second instance of the product grp * s_blocks_per_group (symbolic 32 x 32 bit), which may not finish"],
+ "assumes": ["as get_backup_sb_default, but the filesystem handle has a superblock (descriptors looked bad): block size known (fs->blocksize or ctx->blocksize, each 1024 << n, n <= 6), s_blocks_per_group a power of two >= 8 (the mke2fs default 8 * blocksize is one; mke2fs -g accepts any multiple of 8: NOT covered, with an arbitrary value the comparison of the candidate block with a second instance of the symbolic product grp * s_blocks_per_group does not finish in 200 s)"],
  "native": false
 }
 */
@@ -283,6 +283,8 @@ void h_get_backup_sb_fs(void)
 {
 	LOAD_IN();
 	ASSUME(IN.fs_log_bs <= 6 && IN.ctx_log_bs_plus1 <= 7);
+	/* s_blocks_per_group a power of two (see assumes) */
+	ASSUME(IN.fs_bpg >= 8 && (IN.fs_bpg & (IN.fs_bpg - 1)) == 0);
 	run(1, IN.ctx_log_bs_plus1 ? 1024u << (IN.ctx_log_bs_plus1 - 1) : 0, 0xf);
 }
 
